@@ -649,6 +649,14 @@ impl DbInner {
 			}
 		}
 
+		// Reject the whole commit before any part of it becomes visible.
+		for indexed in commit.indexed.values() {
+			indexed.validate(&self.options)?;
+		}
+		for iterset in commit.btree_indexed.values() {
+			iterset.validate(&self.options)?;
+		}
+
 		let mut overlay = self.commit_overlay.write();
 
 		queue.record_id += 1;
@@ -661,7 +669,7 @@ impl DbInner {
 				record_id,
 				&mut bytes,
 				&self.options,
-			)?;
+			);
 		}
 
 		for (c, iterset) in &commit.btree_indexed {
@@ -670,7 +678,7 @@ impl DbInner {
 				record_id,
 				&mut bytes,
 				&self.options,
-			)?;
+			);
 		}
 
 		let commit = Commit { id: record_id, changeset: commit, bytes };
@@ -713,7 +721,7 @@ impl DbInner {
 					record_id,
 					&mut bytes,
 					&self.options,
-				)?;
+				);
 			}
 
 			for (c, iterset) in &commit.btree_indexed {
@@ -722,7 +730,7 @@ impl DbInner {
 					record_id,
 					&mut bytes,
 					&self.options,
-				)?;
+				);
 			}
 
 			{
@@ -2138,13 +2146,36 @@ impl IndexedChangeSet {
 		self.node_changes.push(change);
 	}
 
+	// Checks that every operation is allowed for the column. This is done for the whole commit
+	// before any of it is copied to the overlay, so that a rejected commit leaves no trace.
+	fn validate(&self, options: &Options) -> Result<()> {
+		let ref_counted = options.columns[self.col as usize].ref_counted;
+		for change in self.changes.iter() {
+			match &change {
+				Operation::Set(..) | Operation::Dereference(..) => (),
+				Operation::Reference(..) =>
+					if !ref_counted {
+						return Err(Error::InvalidInput(format!("No Rc for column {}", self.col)))
+					},
+				Operation::InsertTree(..) |
+				Operation::ReferenceTree(..) |
+				Operation::DereferenceTree(..) =>
+					return Err(Error::InvalidInput(format!(
+						"Invalid operation for column {}",
+						self.col
+					))),
+			}
+		}
+		Ok(())
+	}
+
 	fn copy_to_overlay(
 		&self,
 		overlay: &mut CommitOverlay,
 		record_id: u64,
 		bytes: &mut usize,
 		options: &Options,
-	) -> Result<()> {
+	) {
 		let ref_counted = options.columns[self.col as usize].ref_counted;
 		for change in self.changes.iter() {
 			match &change {
@@ -2159,20 +2190,13 @@ impl IndexedChangeSet {
 						overlay.indexed.insert(*k, (record_id, None));
 					}
 				},
-				Operation::Reference(..) => {
-					// Don't add (we allow remove value in overlay when using rc: some
-					// indexing on top of it is expected).
-					if !ref_counted {
-						return Err(Error::InvalidInput(format!("No Rc for column {}", self.col)))
-					}
-				},
+				// Don't add (we allow remove value in overlay when using rc: some
+				// indexing on top of it is expected).
+				Operation::Reference(..) => (),
+				// Rejected by `validate`.
 				Operation::InsertTree(..) |
 				Operation::ReferenceTree(..) |
-				Operation::DereferenceTree(..) =>
-					return Err(Error::InvalidInput(format!(
-						"Invalid operation for column {}",
-						self.col
-					))),
+				Operation::DereferenceTree(..) => (),
 			}
 		}
 		for change in self.node_changes.iter() {
@@ -2181,7 +2205,6 @@ impl IndexedChangeSet {
 				overlay.address.insert(*address, (record_id, val.clone()));
 			}
 		}
-		Ok(())
 	}
 
 	fn write_plan(
